@@ -5,10 +5,10 @@
 #  3. ./run Cxx (quick) against the changed tree: VIOLATION or not
 # On success of 1+2 the change is stored under /verif/seeded/Cxx-N/ with meta.json.
 ID=$1; N=$2; shift 2; PROPS="$ID $@"
-SRC=/tmp/seed-$ID/SEEDED/$N
+SRC=${SEED_SRC_PREFIX:-/tmp/seed-}$ID/SEEDED/$N; TAG=${SEED_TAG:-}
 [ -f $SRC/patch.diff ] || { echo "no $SRC/patch.diff"; exit 2; }
 export GOFLAGS=-mod=mod GOPROXY=off GOSUMDB=off GOTOOLCHAIN=local
-WT=/tmp/wt-seedchk-$ID-$N; VC=/tmp/verif-seedchk-$ID-$N
+WT=/tmp/wt-seedchk-$ID-$TAG$N; VC=/tmp/verif-seedchk-$ID-$TAG$N
 git -C /repo worktree remove --force $WT 2>/dev/null; rm -rf $WT $VC
 git -C /repo worktree add -q --detach $WT HEAD || exit 2
 place_demo() { # copy demo files per PATHS.txt
@@ -49,13 +49,13 @@ for P in $PROPS; do
   echo "$FULL" | grep -q "^VIOLATION" && CAUGHT="$CAUGHT $P"
 done
 git -C /repo worktree remove --force $WT; rm -rf $VC
-echo "=== $ID-$N: demo_base_pass=$([ $BASE = 0 ] && echo yes || echo NO) own_tests_pass=$([ $OWN = 0 ] && echo yes || echo NO) demo_with_change_fails=$([ $WITH != 0 ] && echo yes || echo NO) caught_by=[${CAUGHT# }]"
+echo "=== $ID-$TAG$N: demo_base_pass=$([ $BASE = 0 ] && echo yes || echo NO) own_tests_pass=$([ $OWN = 0 ] && echo yes || echo NO) demo_with_change_fails=$([ $WITH != 0 ] && echo yes || echo NO) caught_by=[${CAUGHT# }]"
 if [ $BASE = 0 ] && [ $OWN = 0 ] && [ $WITH != 0 ]; then
-  D=/verif/seeded/$ID-$N; mkdir -p $D; cp $SRC/patch.diff $D/; rm -rf $D/demo; cp -r $SRC/demo $D/demo; cp $SRC/README.md $D/README.agent.md 2>/dev/null
-  python3 - "$D" "$ID" "$N" "${CAUGHT# }" <<'PY'
+  D=/verif/seeded/$ID-$TAG$N; mkdir -p $D; cp $SRC/patch.diff $D/; rm -rf $D/demo; cp -r $SRC/demo $D/demo; cp $SRC/README.md $D/README.agent.md 2>/dev/null
+  python3 - "$D" "$ID" "$TAG$N" "${CAUGHT# }" <<'PY'
 import json,sys,time
 d,pid,n,caught=sys.argv[1:5]
-meta={"property":pid,"seed":int(n),"breaks":pid,"needs":"see README.agent.md (written by the independent agent that produced the change)",
+meta={"property":pid,"seed":n,"breaks":pid,"needs":"see README.agent.md (written by the independent agent that produced the change)",
  "confirmed":{"applies_builds":True,"touched_packages_tests_pass":True,"demo_passes_without_change":True,"demo_fails_with_change":True},
  "ran":["seedcheck.sh %s %s"%(pid,n)],"caught_by_quick":caught.split() if caught else [],"checked_at":time.strftime("%Y-%m-%dT%H:%M:%SZ",time.gmtime())}
 json.dump(meta,open(d+"/meta.json","w"),indent=1)
